@@ -289,6 +289,8 @@ def search_counterexample(fc, case, seed=0, tries=3000, budget_s=20):
             break
         try:
             m = {p: gen_value(fc.world, t, rng) for p, t in case.params.items()}
+            if case.native_gen is not None:
+                m = case.native_gen(rng, m)
             rp = replay_case(fc, case, m)
         except Exception:  # pylint: disable=broad-except
             continue
